@@ -846,27 +846,31 @@ def run_batch(ctx, cases, cpp, mdl, names, stats, tag):
     return results
 
 
-def shrink(ctx, case, cpp, mdl, names, what):
-    """structural shrinking: drop script lines while the same kind of problem remains"""
+def shrink(ctx, case, cpp, mdl, names, what, budget_s=45.0):
+    """structural shrinking (delta debugging over script lines: drop chunks of halving size while the same kind of
+    problem remains), bounded in time"""
+    import time
     kind, script, info = case
     lines = script.split(";")
+    t0 = time.time()
 
     def bad(ls):
         st = new_stats()
         res = run_batch(ctx, [(kind, ";".join(ls), info)], cpp, mdl, names, st, "shrink")
         return any(p[0] == "violation" and p[1].split(" (")[0] == what.split(" (")[0] for p in res[0][3])
-    changed = True
-    rounds = 0
-    while changed and rounds < 6 and len(lines) > 2:
-        changed = False
-        rounds += 1
-        i = len(lines) - 1
-        while i >= 1:
-            trial = lines[:i] + lines[i + 1:]
-            if bad(trial):
+    chunk = max(1, len(lines) // 2)
+    while chunk >= 1 and time.time() - t0 < budget_s:
+        i = len(lines) - chunk
+        removed_any = False
+        while i >= 1 and time.time() - t0 < budget_s:
+            trial = lines[:i] + lines[i + chunk:]
+            if len(trial) >= 2 and bad(trial):
                 lines = trial
-                changed = True
-            i -= 1
+                removed_any = True
+            i -= chunk
+        if chunk == 1 and not removed_any:
+            break
+        chunk = chunk // 2 if chunk > 1 else (1 if removed_any else 0)
     return ";".join(lines)
 
 
